@@ -4,7 +4,8 @@ from props._wf_common import TRUSTED, DROPPED, ASSUME
 PROP, LEVEL, ENGINE = "C03", "other", "jxvc"
 DESIGN_REF = "DESIGN.md section 3 C03"
 TECHNIQUE = ("deductive, value-universal/shape-bounded: force-bias jaxprs (hand-coded and reverse-mode AD, interpreted through lu / "
-             "triangular_solve / custom_linear_solve at the generic point) decided as rational identities against <psi|L_g|phi>/<psi|phi> on the Fock space")
+             "triangular_solve / custom_linear_solve at the generic point) decided as rational identities against <psi|L_g|phi>/<psi|phi> on the Fock space"
+             " Plus all-sizes obligations (kind proof): tensor normal forms with SYMBOLIC sizes of the same traced functions (engine B-T, DESIGN 2.3b).")
 EXPLANATION = ("all-sizes (proof): fb.allsizes.{uhf,rhf[r=0],rhf[r=1]} - real intermediates + real force bias == sum_s tr(L_g^T conj(C_s) G_s) for ALL sizes (tensor normal form with symbolic sizes, DESIGN 2.3b). Identities of rational functions in ALL symbolic inputs at enumerated shapes: single-determinant/NOCI kinds through the Green's-"
                "function contract and the one-body Wick lemma; hand-coded cisd/ucisd and the reverse-mode (vjp) force bias of CISD/UCISD/GCISD/"
                "CISD_THC directly against the Fock-space mixed expectation of L_g, which is the logarithmic derivative of the overlap along exp(x L_g) "
